@@ -378,6 +378,14 @@ def link(state, address: int) -> bytes:
 def include(state, included_file_path: str):
     include_path = devices.resolve_relative_path(included_file_path, state["filename"])
 
+    if state["compiler"].files_being_compiled.count(include_path) >= 2:
+        # A file guarded by '.once' stops at its second (nested) compilation, so a third one means endless recursion
+        reports.error(
+            "recursive-include",
+            (state["insn"].ctx_start, state["insn"].ctx_end, f"File '{include_path}' includes itself recursively. Perhaps a '.once' is missing at its top?")
+        )
+        return b""
+
     try:
         with open(include_path, "r") as f:
             code = f.read()
